@@ -7,29 +7,71 @@ open LinfaSpec.Proto LinfaSpec.Determinism
 def showInts (xs : List Int) : String := showList toString xs
 def showNats (xs : List Nat) : String := showList toString xs
 
-/-- `parfor which=memb|dist|both threads=_ n= d= k= cents= obs= sched=`: the three k-means
-updaters executed under the schedule of the request (a permutation of the tasks), on integer
-lattice data (all arithmetic exact).  Output cells start from sentinels so that an unwritten cell
-would show. -/
+/-- events of a request: compute `i` is coded `2*i`, write `i` is `2*i+1` -/
+def decodeEvents (codes : List Nat) : List Event :=
+  codes.map fun c => if c % 2 = 0 then Event.compute (c / 2) else Event.write (c / 2)
+
+def metricOf (s : String) : Option (List Int → List Int → Int) :=
+  match s with
+  | "l2" => some sqDist
+  | "l1" => some l1Dist
+  | _ => none
+
+/-- `parfor which=memb|dist|both metric=l2|l1 mode=tasks|events threads=_ n= d= k= cents= obs= sched=`:
+the three k-means updaters executed under the schedule of the request (`mode=tasks`: a permutation of
+the tasks; `mode=events`: an interleaving of coded compute / write events, `which=both` only), on
+integer lattice data (all arithmetic exact, in f64 and in f32).  Output cells start from sentinels so
+that an unwritten cell would show. -/
 def handleParFor (toks : List String) : Option String := do
   let which ← arg toks "which"
+  let dist ← (arg toks "metric").bind metricOf
+  let mode ← arg toks "mode"
   let n ← argNat toks "n"; let d ← argNat toks "d"; let k ← argNat toks "k"
   let cents ← argInts2 toks "cents"; let obs ← argInts2 toks "obs"
   let sched ← argNats toks "sched"
   if cents.length ≠ k ∨ obs.length ≠ n ∨ cents.any (·.length ≠ d) ∨ obs.any (·.length ≠ d) then none
   if k = 0 then some "panic" else
-  match which with
-  | "memb" =>
-    let m := updateMemberships cents obs sched (List.replicate n 1000000)
+  match mode, which with
+  | "tasks", "memb" =>
+    let m := updateMemberships dist cents obs sched (List.replicate n 1000000)
     some s!"ok m={showNats m} d=- sum=-"
-  | "dist" =>
-    let ds := updateMinDists cents obs sched (List.replicate n (-1))
+  | "tasks", "dist" =>
+    let ds := updateMinDists dist cents obs sched (List.replicate n (-1))
     some s!"ok m=- d={showInts ds} sum={sumAfterJoin ds}"
-  | "both" =>
-    let r := updateBoth cents obs sched (List.replicate n (1000000, (-1 : Int)))
+  | "tasks", "both" =>
+    let r := updateBoth dist cents obs sched (List.replicate n (1000000, (-1 : Int)))
     let ds := r.map (·.2)
     some s!"ok m={showNats (r.map (·.1))} d={showInts ds} sum={sumAfterJoin ds}"
-  | _ => none
+  | "events", "both" =>
+    let r := updateBothEvents dist cents obs (decodeEvents sched) (List.replicate n (1000000, (-1 : Int)))
+    let ds := r.map (·.2)
+    some s!"ok m={showNats (r.map (·.1))} d={showInts ds} sum={sumAfterJoin ds}"
+  | _, _ => none
+
+/-- `fitsum form=fit_with|fit metric= n= d= k= cents= obs= sched=`: the assignment step and the
+reduction after the join as they run inside `KMeansValidParams::fit_with(None, ·)` / at the end of a
+restart of `fit` (precomputed centroids): cluster counts and the inertia numerator `dists.sum()`. -/
+def handleFitSum (toks : List String) : Option String := do
+  let form ← arg toks "form"
+  if form ≠ "fit_with" ∧ form ≠ "fit" then none
+  let dist ← (arg toks "metric").bind metricOf
+  let n ← argNat toks "n"; let d ← argNat toks "d"; let k ← argNat toks "k"
+  let cents ← argInts2 toks "cents"; let obs ← argInts2 toks "obs"
+  let sched ← argNats toks "sched"
+  if cents.length ≠ k ∨ obs.length ≠ n ∨ cents.any (·.length ≠ d) ∨ obs.any (·.length ≠ d) then none
+  if k = 0 ∨ n = 0 then none
+  let r := fitWithStep dist cents obs sched (List.replicate n (1000000, (-1 : Int)))
+  some s!"ok count={showNats r.1} sum={r.2}"
+
+/-- `fitseq est=_ table=<row of generator state 0>;<row of state 1> seq=<data-set numbers>`: one
+parameter object fitted on the data sets `seq` one after another; the answer is the list of model
+digests `fitSession` returns (every fit = the first-fit entry of the table). -/
+def handleFitSeq (toks : List String) : Option String := do
+  let _ ← arg toks "est"
+  let tbl ← argNats2 toks "table"
+  let seq ← argNats toks "seq"
+  if tbl.length ≠ 2 ∨ seq.any (fun d => tbl.any (·.length ≤ d)) then none
+  some s!"ok {showNats (fitSession tbl seq)}"
 
 /-- `modal keys= freqs=`: entries in the iteration order of the request -/
 def handleModal (toks : List String) : Option String := do
@@ -63,7 +105,7 @@ def handleNb (toks : List String) : Option String := do
       if (tbl.filter fun e => e.2.getD i 0 == v).length > 1 then "t" else toString c
     some s!"ok {",".intercalate toks}"
 
-/-- `labels t= a=<rows> b=<single column>`: rows of a `t`-column target matrix -/
+/-- `labels t= a=<rows> b=<single column> g=<ground truth for column 0>`: rows of a `t`-column target matrix -/
 def handleLabels (toks : List String) : Option String := do
   let t ← argNat toks "t"
   let a ← (match arg toks "a" with
@@ -73,8 +115,13 @@ def handleLabels (toks : List String) : Option String := do
     | some s => parseList parseNat s
     | none => some [])
   if a.any (·.length ≠ t) then none
+  let g ← (match arg toks "g" with
+    | some s => parseList parseNat s
+    | none => some [])
   let cols := (List.range t).map fun j => a.map fun r => r.getD j 0
-  some s!"ok labels={showNats (sortedLabels cols)} combined={showNats (sortedCombinedLabels cols [b])}"
+  -- `confusion_matrix` of the first target column against `g` (same length): its sorted `members`
+  let cm := if g.length = a.length then showNats (cmMembers (cols.getD 0 []) g) else "mismatch"
+  some s!"ok labels={showNats (sortedLabels cols)} combined={showNats (sortedCombinedLabels cols [b])} cm={cm}"
 
 def parseStop (s : String) : Option (Stop Float) :=
   match s.splitOn ":" with
@@ -128,11 +175,25 @@ def handleVocab (toks : List String) : Option String := do
     let s := (ngrams d lo hi).eraseDups
     if rev = 1 then s.reverse else s
   let v := sortByKey (fitVocabulary sets minabs maxabs stop cap)
-  some s!"ok n={v.length} vocab={showList (fun e => showWord e.1 ++ "=" ++ toString e.2) v}"
+  let showV := fun (l : List (List Nat × Nat)) => showList (fun e => showWord e.1 ++ "=" ++ toString e.2) l
+  -- the statement promises the same vocabulary on every run, not which of several words of equal
+  -- document frequency survive the cut: when the cut falls inside a group of equal frequencies
+  -- only the words above that frequency and the number kept at it are compared
+  let fs := ((fitVocabulary sets minabs maxabs stop none).map (·.2)).mergeSort (fun x y => decide (y ≤ x))
+  match cap with
+  | some k =>
+    if k ≥ 1 ∧ k < fs.length ∧ fs.getD (k - 1) 0 = fs.getD k 0 then
+      let f := fs.getD k 0
+      let above := v.filter (fun e => f < e.2)
+      some s!"ok n={v.length} vocab={showV above} tie={f}x{(v.filter (fun e => e.2 = f)).length}"
+    else some s!"ok n={v.length} vocab={showV v} tie=-"
+  | none => some s!"ok n={v.length} vocab={showV v} tie=-"
 
 def handle (toks : List String) : String :=
   let r := match toks with
     | "parfor" :: rest => handleParFor rest
+    | "fitsum" :: rest => handleFitSum rest
+    | "fitseq" :: rest => handleFitSeq rest
     | "modal" :: rest => handleModal rest
     | "nbargmax" :: rest => handleNb rest
     | "labels" :: rest => handleLabels rest
